@@ -44,7 +44,8 @@ type XKey struct {
 // Faults is the injected behaviour of the collaborator for one operation.
 type Faults struct {
 	Reject      func(cand []byte) bool
-	PermanentAt int // 0: never; n: the n-th validity decision of this operation fails permanently
+	PermanentAt int                    // 0: never; n: the n-th validity decision of this operation fails permanently
+	Permanent   func(cand []byte) bool // the collaborator fails permanently on this candidate
 	calls       int
 }
 
@@ -61,6 +62,9 @@ const (
 func (f *Faults) decide(cand []byte) (reject, permanent bool) {
 	f.calls++
 	if f.PermanentAt > 0 && f.calls == f.PermanentAt {
+		return false, true
+	}
+	if f.Permanent != nil && f.Permanent(cand) {
 		return false, true
 	}
 	if f.Reject != nil && f.Reject(cand) {
